@@ -448,7 +448,9 @@ func (s *BaseVisitor) EnterOC_ListComprehension(c *parser.OC_ListComprehensionCo
 	s.newUnsupportedRuleError(c)
 }
 
-func (s *BaseVisitor) EnterOC_PatternComprehension(c *parser.OC_PatternComprehensionContext) {}
+func (s *BaseVisitor) EnterOC_PatternComprehension(c *parser.OC_PatternComprehensionContext) {
+	s.newUnsupportedRuleError(c)
+}
 
 func (s *BaseVisitor) EnterOC_Quantifier(c *parser.OC_QuantifierContext) {}
 
